@@ -181,6 +181,9 @@ def job_callsites():
 def main():
     import c10
     jobs = [(job_closed_forms, {'lmode': 'sym'}), (job_closed_forms, {'lmode': 'each'}), (job_degree2, {}), (job_callsites, {}), (c10.job_love_callsite, {'L': 4})]
+    # the quick_tides front ends (tuple and dict / world-instance entry points, single and dual) are the call sites of the helpers: which body's gravity, density, radius reaches which
+    # effective rigidity is decided by provenance terms against an independent composition of the leaf functions
+    jobs += [(c10.job_quick_api, {'chunk': ch, 'nchunks': 4}) for ch in range(4)]
     meta = {
         'explanation': 'The six functions of TidalPy/tides/love1d.py are taken from the current source (AST), executed on z3 real/complex symbols '
                        '(division-free rational functions, exact source literals) and compared with the closed form written independently in the harness; '
